@@ -46,32 +46,37 @@ def _factories():
     for t in ("t1", "t2", "t3"):
         F["Table:" + t] = (lambda t=t: Table(t))
     F["Table:s.t4"] = lambda: Table("t4", schema="s")
-    F["fn.Sum"] = lambda: fn.Sum(Field("x"))
-    F["fn.Count"] = lambda: fn.Count(Field("y"))
+    # terms refer to tables t1/t2 (by value: Table.__eq__ compares names), so that replace_table has something to replace
+    T1, T2 = (lambda: Table("t1")), (lambda: Table("t2"))
+    F["fn.Sum"] = lambda: fn.Sum(Field("x", table=T1()))
+    F["fn.Count"] = lambda: fn.Count(Field("y", table=T2()))
     F["fn.Avg"] = lambda: fn.Avg(Field("z"))
-    F["fn.Coalesce"] = lambda: fn.Coalesce(Field("x"), 0)
+    F["fn.Coalesce"] = lambda: fn.Coalesce(Field("x", table=T1()), 0)
     F["an.Rank"] = lambda: an.Rank()
     F["an.NTile"] = lambda: an.NTile(4)
-    F["an.Sum"] = lambda: an.Sum(Field("x"))
+    F["an.Sum"] = lambda: an.Sum(Field("x", table=T1()))
     F["an.Avg"] = lambda: an.Avg(Field("y"))
-    F["an.LastValue"] = lambda: an.LastValue(Field("x"))
+    F["an.LastValue"] = lambda: an.LastValue(Field("x", table=T1()))
     F["an.FirstValue"] = lambda: an.FirstValue(Field("y"))
-    F["an.Lag"] = lambda: an.Lag(Field("x"), 1)
-    F["Field"] = lambda: Field("f")
-    F["Tuple"] = lambda: Tuple(Field("a"), 1, "x")
-    F["BasicCriterion"] = lambda: Field("a") == 1
-    F["ComplexCriterion"] = lambda: (Field("a") == 1) & (Field("b") > 2)
-    F["ContainsCriterion"] = lambda: Field("a").isin([1, 2])
-    F["BetweenCriterion"] = lambda: Field("a").between(1, 5)
-    F["NullCriterion"] = lambda: Field("a").isnull()
-    F["BitwiseAndCriterion"] = lambda: Field("a").bitwiseand(3)
-    F["ArithmeticExpression"] = lambda: Field("a") + Field("b") * 2
-    F["Not"] = lambda: Not(Field("a") == 1)
-    F["ExistsCriterion"] = lambda: ExistsCriterion(Query.from_("e").select("x"))
+    F["an.Lag"] = lambda: an.Lag(Field("x", table=T2()), 1)
+    F["Field"] = lambda: Field("f", table=T1())
+    F["Tuple"] = lambda: Tuple(Field("a", table=T1()), Field("b", table=T2()), 1, "x")
+    F["BasicCriterion"] = lambda: Field("a", table=T1()) == Field("a", table=T2())
+    F["ComplexCriterion"] = lambda: (Field("a", table=T1()) == 1) & (Field("b", table=T2()) > 2)
+    F["ContainsCriterion"] = lambda: Field("a", table=T1()).isin([1, 2])
+    F["TupleIn"] = lambda: Tuple(Field("a", table=T1()), Field("b", table=T1())).isin([Tuple(1, 2)])
+    F["BetweenCriterion"] = lambda: Field("a", table=T1()).between(1, 5)
+    F["NullCriterion"] = lambda: Field("a", table=T2()).isnull()
+    F["BitwiseAndCriterion"] = lambda: Field("a", table=T1()).bitwiseand(3)
+    F["ArithmeticExpression"] = lambda: Field("a", table=T1()) + Field("b", table=T2()) * 2
+    F["Not"] = lambda: Not(Field("a", table=T1()) == 1)
+    F["ExistsCriterion"] = lambda: ExistsCriterion(Query.from_(T1()).select("x"))
     F["ValueWrapper"] = lambda: ValueWrapper("v")
-    F["Function"] = lambda: Function("f", Field("a"), 2)
-    F["Rollup"] = lambda: Rollup(Field("a"), Field("b"))
-    F["Array"] = lambda: Array(1, 2)
+    F["Function"] = lambda: Function("f", Field("a", table=T1()), 2)
+    F["Rollup"] = lambda: Rollup(Field("a", table=T1()), Field("b", table=T2()))
+    F["Array"] = lambda: Array(Field("a", table=T1()), 2)
+    F["Bracket"] = lambda: Bracket(Field("a", table=T1()) + 1)
+    F["Negative"] = lambda: Negative(Field("a", table=T1()))
     return F
 
 
@@ -339,9 +344,17 @@ def render(o):
     try:
         if hasattr(o, "get_sql"):
             try:
-                return "sql:" + str(o.get_sql())
+                txt = "sql:" + str(o.get_sql())
             except TypeError:
                 return "str:" + str(o)
+            try:
+                # terms name their table only inside multi-table statements: observe that rendering too
+                ns = str(o.get_sql(with_namespace=True, quote_char='"'))
+                if ns != txt[4:]:
+                    txt += "  [qualified: " + ns + "]"
+            except Exception:  # noqa
+                pass
+            return txt
         if type(o).__str__ is not object.__str__:
             return "str:" + str(o)
     except Exception as e:  # noqa
